@@ -129,10 +129,54 @@ def succs_of(t):
     if k == "call":
         return [t["t"]] if t["t"] is not None else []
     if k == "switch":
+        c = op_const(t["discr"])
+        if c is not None and "int" in c:
+            # branch on a literal constant (`if false && ..`): only the matching edge is feasible
+            for v, b in t["targets"]:
+                if v == c["int"]:
+                    return [b]
+            return [t["otherwise"]]
         out = [b for _, b in t["targets"]]
         out.append(t["otherwise"])
         return out
     return []
+
+
+def block_succs(b):
+    """successors of a block; a switch whose scrutinee was assigned a literal in this very block is decided"""
+    t = b["t"]
+    if t["k"] == "switch":
+        pl = op_place(t["discr"])
+        if pl is not None and not pl["p"]:
+            val = None
+            for s in b["s"]:
+                if s["lhs"]["l"] == pl["l"] and not s["lhs"]["p"]:
+                    c = op_const(s["rv"].get("op")) if s["rv"]["k"] == "use" else None
+                    val = c["int"] if (c is not None and "int" in c) else None
+            if val is not None:
+                for v, tb in t["targets"]:
+                    if v == val:
+                        return [tb]
+                return [t["otherwise"]]
+    return succs_of(t)
+
+
+def live_blocks(fn):
+    """blocks reachable from the entry (constant branches pruned); cached on the fn record"""
+    r = fn.get("_live")
+    if r is None:
+        seen = {0}
+        st = [0]
+        blocks = fn["blocks"]
+        while st:
+            x = st.pop()
+            for y in block_succs(blocks[x]):
+                if y not in seen:
+                    seen.add(y)
+                    st.append(y)
+        r = seen
+        fn["_live"] = r
+    return r
 
 
 class CFG:
@@ -140,7 +184,7 @@ class CFG:
         self.fn = fn
         self.blocks = fn["blocks"]
         n = len(self.blocks)
-        self.succ = [succs_of(b["t"]) for b in self.blocks]
+        self.succ = [block_succs(b) for b in self.blocks]
         self.pred = [[] for _ in range(n)]
         for i, ss in enumerate(self.succ):
             for s in ss:
@@ -460,8 +504,9 @@ def provenance(fn, du, op_or_place, transparent_extra=(), max_depth=40, stop_at_
 
 def calls(fn):
     """yield (bb index, terminator) for call terminators in non-cleanup blocks"""
+    live = live_blocks(fn)
     for bi, b in enumerate(fn["blocks"]):
-        if b["cleanup"]:
+        if b["cleanup"] or bi not in live:
             continue
         t = b["t"]
         if t["k"] == "call":
@@ -469,8 +514,9 @@ def calls(fn):
 
 
 def stmts(fn):
+    live = live_blocks(fn)
     for bi, b in enumerate(fn["blocks"]):
-        if b["cleanup"]:
+        if b["cleanup"] or bi not in live:
             continue
         for si, s in enumerate(b["s"]):
             yield bi, si, s
